@@ -112,7 +112,7 @@ pub fn random(r: &mut Rng, name: &'static str) -> ProjDef {
             d.extent = (60.0, 25.0);
         }
         "laea" => {
-            let lat_0 = *r.pick(&[52.0, -30.0, 10.0, 75.0]);
+            let lat_0 = *r.pick(&[52.0, -30.0, 10.0, 75.0, 0.0, 0.0]);
             d.lat_0 = Some(lat_0);
             d.has_k0 = false;
             d.centre = (lon_0, lat_0);
